@@ -265,6 +265,22 @@ class Program:
         if pren:
             self.normalisation_log += pren
             self._reindex()
+        from .normalize import drop_reraise_only_handlers
+
+        rer = drop_reraise_only_handlers(self)
+        if rer:
+            self.normalisation_log += rer
+            self._reindex()
+        from .normalize import strip_identity_conversions, strip_typed_conversions
+
+        ident = strip_identity_conversions(self)
+        if ident:
+            self.normalisation_log += ident
+            self._reindex()
+        ident2 = strip_typed_conversions(self)
+        if ident2:
+            self.normalisation_log += ident2
+            self._reindex()
         from .normalize import wrapper_ctor_param_renames
 
         cren = wrapper_ctor_param_renames(self)
@@ -725,6 +741,13 @@ class Program:
                 if cv and cv.args:
                     return cv.args[0]
                 return None
+            if callee in ("asyncio.Future.result", "asyncio.Task.result") and isinstance(expr.func, ast.Attribute):
+                cv = self.expr_type(fi, expr.func.value, _depth + 1)
+                if cv and cv.args and cv.args[0] is not None:
+                    return cv.args[0]  # Future[float].result() -> float
+                return None
+            if callee.startswith("builtins.str.") and callee.rsplit(".", 1)[1] in ("replace", "strip", "lstrip", "rstrip", "lower", "upper", "format", "join", "removeprefix", "removesuffix", "ljust", "rjust", "center", "title"):
+                return TypeRef("builtins.str")
             if callee in EXTERNAL_RETURNS:
                 return TypeRef(EXTERNAL_RETURNS[callee])
             f = self.functions.get(callee)
@@ -745,6 +768,13 @@ class Program:
             return next(iter(ts)) if len(ts) == 1 else None
         if isinstance(expr, ast.NamedExpr):
             return self.expr_type(fi, expr.value, _depth + 1)
+        if isinstance(expr, ast.IfExp):
+            ta, tb = self.expr_type(fi, expr.body, _depth + 1), self.expr_type(fi, expr.orelse, _depth + 1)
+            return ta if ta is not None and tb is not None and ta.name == tb.name else None
+        if isinstance(expr, ast.JoinedStr) or (isinstance(expr, ast.Constant) and isinstance(expr.value, str)):
+            return TypeRef("builtins.str")
+        if isinstance(expr, ast.Constant) and type(expr.value) in (int, float, bool):
+            return TypeRef("builtins." + type(expr.value).__name__)
         if isinstance(expr, ast.Subscript):
             # ContextVar[ScopeState]("name") style generic instantiation handled in Call via func
             return None
